@@ -34,6 +34,57 @@ _END_OPS = ("endTest", "endSessionSetup", "endSessionTeardown", "endSuiteSetup",
 _START_OPS = ("startTest", "startSessionSetup", "startSessionTeardown", "startSuiteSetup", "startSuiteTeardown")
 
 
+THREAD_ENDS = ("SystemExit", "GeneratorExit", "CustomBase", "exc")
+TRACEBACK = "<traceback>"
+
+
+class ProjectPanic(BaseException):
+    """a project's own exception type that is not an `Exception`"""
+
+
+_THREAD_END_CLASSES = {"SystemExit": SystemExit, "GeneratorExit": GeneratorExit, "CustomBase": ProjectPanic, "exc": RuntimeError}
+_EMPTY_STEP = []
+
+
+def empty_step_is_a_step():
+    """Probe of the REAL Session (cached): `set_step(""); log; set_step("x"); log` — does the untitled step get its
+    StepEnd like any other step?  The unchanged session.py tests the TRUTH VALUE of the description (`_end_step_if_any:
+    if self.cursor.step:`, `end_step: assert self.cursor.step`): the step "" is started, logged into and never ended
+    (finding D39, fixes/D39-empty-step-description.diff).  Model M3 is the repaired behaviour; generators use "" only
+    when this probe says True, the corpus witnesses always."""
+    if _EMPTY_STEP:
+        return _EMPTY_STEP[0]
+    import lemoncheesecake.events as E
+    import lemoncheesecake.session as S
+    from lemoncheesecake.reporting import Report
+    from lemoncheesecake.testtree import BaseTest
+    fired = []
+
+    class EM(E.EventManager):
+        def fire(self, event):
+            fired.append(event)
+    tmp = tempfile.mkdtemp(prefix="lccverif-probe-")
+    old = S.Session._instance
+    try:
+        session = S.Session(EM.load(), tmp, Report())
+        S.Session._instance = session
+        node = R._node_chain(["s", "t"], md_of("t"), BaseTest)
+        session.start_test(node)
+        session.set_step("")
+        session.log_info("x")
+        session.set_step("next")
+        session.log_info("y")
+        session.end_test(node)
+        ok = any(isinstance(e, E.StepEndEvent) and e.step == "" for e in fired)
+    except Exception:
+        ok = False
+    finally:
+        S.Session._instance = old
+        shutil.rmtree(tmp, ignore_errors=True)
+    _EMPTY_STEP.append(ok)
+    return ok
+
+
 def _loc_key(loc):
     return (loc["k"], tuple(loc.get("path") or ()))
 
@@ -251,13 +302,20 @@ def gen_ops(rng, chaos=0.05):
         """a set_step op; about a third of them set the description the thread set last AGAIN (polling loops)"""
         if tid in last_desc and rng.random() < 0.35:
             desc = last_desc[tid]
+        elif rng.random() < 0.08:
+            desc = rng.choice([" ", "two\nlines", "\n", "\t"] + ([""] * 2 if empty_step_is_a_step() else []))
         last_desc[tid] = desc
         return {"tid": tid, "op": "setStep", "desc": desc}
 
     def spawn(tid, depth):
         new = nxt_thread[0]
         nxt_thread[0] += 1
-        inner = [{"tid": new, "op": "threadRun"}] + body_ops(new, depth + 1) + [{"tid": new, "op": "threadEnd"}]
+        end = {"tid": new, "op": "threadEnd"}
+        if rng.random() < 0.3:
+            # the thread's target does not return: it raises — sys.exit(), GeneratorExit, a project's BaseException
+            # (nothing is logged), an Exception (`Thread.run` logs an error) — and `Thread.run`'s `finally` ends the step
+            end["how"] = rng.choice(THREAD_ENDS)
+        inner = [{"tid": new, "op": "threadRun"}] + body_ops(new, depth + 1) + [end]
         return [{"tid": tid, "op": "threadCreate", "new": new}, ("spawned", inner)]
 
     def simple_op(tid, r):
@@ -455,6 +513,15 @@ def _window_corpus():
                                step(10, "poll"), log(10, "t2"), {"tid": 10, "op": "threadEnd"},
                                step(1, "poll"), step(1, "poll"), log(1, "r3"),
                                begin(1, "f", "d"), step(1, "poll"), end(1)])),
+        # an lcc.Thread whose target has logged and then does not return: sys.exit() / a project's BaseException (nothing
+        # is logged, `Thread.run`'s `finally` ends the thread's step), an Exception (error log, then the same epilogue);
+        # the test goes on and ends
+        wrap(test(1, "t1", 1, [step(1, "a"), {"tid": 1, "op": "threadCreate", "new": 10}, {"tid": 10, "op": "threadRun"},
+                               log(10, "in thread"), {"tid": 10, "op": "threadEnd", "how": "SystemExit"}, log(1, "after")])),
+        wrap(test(1, "t1", 1, [step(1, "a"), {"tid": 1, "op": "threadCreate", "new": 10}, {"tid": 10, "op": "threadRun"},
+                               log(10, "in thread"), step(10, "b"), log(10, "more"), {"tid": 10, "op": "threadEnd", "how": "CustomBase"},
+                               {"tid": 1, "op": "threadCreate", "new": 11}, {"tid": 11, "op": "threadRun"},
+                               log(11, "second"), {"tid": 11, "op": "threadEnd", "how": "exc"}, log(1, "after")])),
     ]
 
 
@@ -486,6 +553,8 @@ class SessionStream(C.Stream):
                     e = R.canon_event(event)
                     if "tid" in e:      # map now: OS thread idents are reused after a thread ends
                         e["tid"] = ident2tid.get(e["tid"], -1)
+                    if e["e"] == "log" and str(e.get("msg", "")).startswith("Caught unexpected exception while running test"):
+                        e["msg"] = TRACEBACK
                     fired.append(e)
                     if e["e"] == "att":
                         # what is on disk at the moment the report is told about the attachment
@@ -614,6 +683,9 @@ class SessionStream(C.Stream):
                 op = q.get()
                 if op is None:
                     return
+                if isinstance(op, tuple) and op[0] == "raise":
+                    # the target of the lcc.Thread ends by raising (outside the op loop's classification)
+                    raise _THREAD_END_CLASSES[op[1]]("thread target ended by " + op[1])
                 try:
                     do(op)
                     ack.put(("ok", None))
@@ -643,9 +715,16 @@ class SessionStream(C.Stream):
                     st = ack.get(timeout=20)
                 elif k == "threadEnd":
                     th, q, ack = lccthreads[tid]
-                    q.put(None)
+                    how = op.get("how")
+                    q.put(("raise", how) if how else None)
                     th.join(20)
                     st = ("err", died[th]) if th in died else ("ok", None)
+                    if how and how != "exc" and died.get(th) == _THREAD_END_CLASSES[how].__name__:
+                        st = ("ok", None)       # the thread died of what its target raised, AFTER Thread.run's epilogue
+                    if how == "exc":
+                        # the model sees two calls: the error log of `except Exception` (which the real thread has issued in
+                        # any case), then the epilogue — which may be the call that fails (AssertionError: no started step)
+                        accepted += 1
                 else:
                     if tid in lccthreads and lccthreads[tid][0].is_alive():
                         _, q, ack = lccthreads[tid]
@@ -691,7 +770,13 @@ class SessionStream(C.Stream):
             if "md" in o and o["md"] is not None:
                 o["md"] = R.wire(o["md"])
             return o
-        return {"ops": [w(op) for op in case["ops"]]}
+        ops = []
+        for op in case["ops"]:
+            if op["op"] == "threadEnd" and op.get("how") == "exc":
+                # `Thread.run`: `except Exception: self._session.log_error(<traceback>)`, then `finally: end_step()`
+                ops.append({"tid": op["tid"], "op": "log", "level": "error", "msg": TRACEBACK})
+            ops.append(op)
+        return {"ops": [w(op) for op in ops]}
 
     def compare(self, case, obs, ans):
         if "error" in ans and ans.get("fired") is None:
@@ -717,6 +802,12 @@ class SessionStream(C.Stream):
         f = ["threads=%d" % len({op["tid"] for op in case["ops"]})]
         if any(op["op"] == "threadCreate" for op in case["ops"]):
             f.append("lcc.Thread")
+        for op in case["ops"]:
+            if op["op"] == "threadEnd" and op.get("how"):
+                f.append("lcc.Thread-target-raises:" + op["how"])
+            if op["op"] == "setStep" and (not op["desc"].strip() or "\n" in op["desc"]):
+                f.append("setStep-desc:" + ("empty" if op["desc"] == "" else "blank" if not op["desc"].strip() else "multi-line"))
+        f = sorted(set(f))
         if obs["error"]:
             f.append("error=" + str(obs["error"]))
         # `with prepare_attachment` windows: how many, and what happens inside them
